@@ -2,7 +2,12 @@
 from __future__ import annotations
 
 import itertools
+import json
+import os
 import random
+import subprocess
+import sys
+import time
 
 from vf.core.result import Res
 from vf.gen.ir import source
@@ -14,7 +19,8 @@ LEVEL = "exploration"
 RULE = (
     "one case per input text run through Program.assemble_string_with_emitter under the T-steps monitor (LINE+PY_START+JUMP events inside "
     "a816): every sequence of <= 2 (quick) / <= 3 (thorough) tokens over a 72-token alphabet joined with '', ' ' and newline, random "
-    "sequences of 3-30 tokens, and every truncation (each character position), token deletion and duplication of valid generated programs; "
+    "sequences of 3-30 tokens, inputs with .include/.incbin/.table/.include_ips of missing, existing and self-including files run through the file "
+    "front end under an absolute and a relative source path, and every truncation (each character position), token deletion and duplication of valid generated programs; "
     "violated when the step count exceeds B = 200000 + 20000*len + sum over .for expansions of trips*(2000+200*len); distinct by hash of the "
     "text; non-trivial = the monitor counted at least one step for it"
 )
@@ -22,6 +28,8 @@ ASSUMPTIONS = [
     "bounded progress per executed input, not termination of all inputs; legitimate cost measured at ~110 steps per input character",
     "a requested .for trip count above 4096 makes the case unjudged (explicit count above cap)",
     "RecursionError from runaway macro recursion is a reported error",
+    "time spent in native code raises no interpreter event: a worker stuck in one case for 30 s is killed by the driver and the case is run alone, unmonitored, in a "
+    "fresh process; not finishing within 90 s there (ordinary cases take milliseconds) is the violation no-progress-in-native-code",
 ]
 
 ALPHABET = [
@@ -76,19 +84,75 @@ def install_for_tap() -> bool:
     return True
 
 
+STALL_SECONDS = 30.0          # a single case normally takes milliseconds; the driver kills a worker stuck longer in one case
+CONFIRM_SECONDS = 90.0       # ... and the case is then run alone, unmonitored, in a fresh process with this limit
+_hb = {"f": None, "skip": set()}
+
+
+def heartbeat(key: dict) -> None:
+    """Tells the driver which case is running: time spent inside native code (a regular expression, a C loop) raises no
+    interpreter event, so only the wall clock of the driver can see it."""
+    path = os.environ.get("VERIF_HEARTBEAT")
+    if not path:
+        return
+    if _hb["f"] is None:
+        _hb["f"] = open(path, "w", encoding="utf-8")
+    f = _hb["f"]
+    f.seek(0)
+    f.write(json.dumps({"t": time.time(), "key": key}))
+    f.truncate()
+    f.flush()
+
+
+def run_one_unmonitored(key: dict) -> str:
+    with Scratch({}) as sc:
+        return _run_via(key["text"], key.get("via", "string"), sc.dir, None)
+
+
+def confirm_stall(hb: dict):
+    key = hb.get("key") or {}
+    env = dict(os.environ)
+    try:
+        cp = subprocess.run([sys.executable, "-W", "ignore", "-m", "vf.checks.c15", "--one"], input=json.dumps(key), capture_output=True, text=True, timeout=CONFIRM_SECONDS, env=env)
+        return f"finished alone in a fresh process: {cp.stdout.strip()[-80:]}"
+    except subprocess.TimeoutExpired:
+        text = key.get("text", "")
+        return {"mechanism": "no-progress-in-native-code",
+                "detail": f"a {len(text)}-character input ({key.get('family')}, via {key.get('via', 'string')}) kept one worker busy for more than {STALL_SECONDS:.0f}s without the step "
+                          f"monitor seeing the budget exceeded, and did not finish within {CONFIRM_SECONDS:.0f}s when run alone, unmonitored, in a fresh process: {text[:120]!r}",
+                "witness": {"text": text, "family": key.get("family"), "via": key.get("via", "string"), "native": True}}
+
+
+def _run_via(text: str, via: str, cwd: str, writer) -> None:
+    prog = new_program()
+    if via == "string":
+        prog.assemble_string_with_emitter(text, "t.s", writer if writer is not None else RecWriter())
+        return
+    # the file front end: the source is named by an absolute / relative path (the include search may depend on it)
+    name = "main_c15.s"
+    with open(os.path.join(cwd, name), "w", encoding="utf-8", newline="") as f:
+        f.write(text)
+    prog.assemble_as_patch(os.path.join(cwd, name) if via == "file_abs" else name, os.path.join(cwd, "out_c15.ips"))
+
+
 def budget_for(text: str) -> int:
     return 200_000 + 20_000 * len(text)
 
 
-def run_text(res: Res, text: str, family: str) -> None:
+def run_text(res: Res, text: str, family: str, via: str = "string") -> None:
+    key = {"text": text, "family": family, "via": via}
+    if _hb["skip"] and json.dumps(key, sort_keys=True) in _hb["skip"]:
+        res.count("skipped_after_stall")       # the driver decides this case separately (confirm_stall)
+        return
+    heartbeat(key)
     t = montap()
     _for_state["len"] = len(text)
-    prog = new_program()
     verdict = "ok"
-    t.start_steps(budget_for(text))
+    # a file that includes itself recurses until the interpreter's recursion limit (a reported error): a fixed cost of ~0.4 M steps
+    t.start_steps(budget_for(text) + (2_000_000 if via != "string" else 0))
     try:
         try:
-            prog.assemble_string_with_emitter(text, "t.s", RecWriter())
+            _run_via(text, via, os.getcwd(), None)
         finally:
             steps = t.stop_steps()
     except BudgetExceeded:
@@ -99,14 +163,16 @@ def run_text(res: Res, text: str, family: str) -> None:
         verdict = "recursion"
     except BaseException as e:  # noqa: BLE001 - any reported error is a proper end
         verdict = "error:" + type(e).__name__
-    res.case(text, steps > 0)
+    res.case((text, via) if via != "string" else text, steps > 0)
     res.count("family[" + family + "]")
+    if via != "string":
+        res.count(f"via[{via}]")
     if verdict == "budget" and not _for_state["installed"] and ".for" in text:
         res.count("unjudged_for_tap_unavailable")
         return
     if verdict == "budget":
         mech = "unterminated-block-comment" if "/*" in text and "*/" not in text.split("/*", 1)[1] else "step-budget-exhausted"
-        res.violate(mech, f"{t.budget} interpreter steps were not enough for a {len(text)}-character input ({family}): {text[:80]!r}", {"text": text, "family": family})
+        res.violate(mech, f"{t.budget} interpreter steps were not enough for a {len(text)}-character input ({family}): {text[:80]!r}", {"text": text, "family": family, "via": via})
         return
     if verdict == "unjudged":
         res.count("unjudged_for_cap")
@@ -131,6 +197,7 @@ def plan(tier: str, seed: int) -> list[dict]:
     mn, progs = (16, 2) if tier == "quick" else (64, 5)
     shards += [{"kind": "mutate", "seed": seed * 100_000 + i, "programs": progs} for i in range(mn)]
     shards += [{"kind": "recursion", "seed": seed * 100_000 + i, "n": 40 if tier == "quick" else 200} for i in range(4)]
+    shards += [{"kind": "files", "seed": seed * 100_000 + i, "n": 60 if tier == "quick" else 600} for i in range(4)]
     return shards
 
 
@@ -162,8 +229,16 @@ def recursion_text(rng: random.Random) -> str:
             + (wrap + "\n" if wrap else "") + f"rec({depth})\n" + ("}\n" if wrap else ""))
 
 
+FILE_TEXTS = [
+    ".include 'nofile_c15.s'\n", "*=0x008000\n.db 1\n.include 'sub/dir/nofile_c15.s'\n.db 2\n", ".incbin 'nofile_c15.bin'\n", ".table 'nofile_c15.tbl'\n",
+    ".include_ips 'nofile_c15.ips', 0\n", ".include 'exists_c15.s'\n", ".include '../nofile_c15.s'\n", ".include '/nofile_c15.s'\n", ".include ''\n", ".include '.'\n",
+    ".include 'exists_c15.s'\n.include 'exists_c15.s'\n", ".include 'self_c15.s'\n", "{\n.include 'nofile_c15.s'\n}\n", ".include 'main_c15.s'\n",
+]
+
+
 def run_shard(shard: dict) -> Res:
     res = Res()
+    _hb["skip"] = {json.dumps(k, sort_keys=True) for k in shard.get("skip", []) if k}
     if not install_for_tap():
         res.count("tap_for_unavailable")     # inputs containing .for are then unjudged when they exceed the budget
     with Scratch({}):
@@ -185,6 +260,21 @@ def run_shard(shard: dict) -> Res:
                 run_text(res, text, "random")
                 if i == 0:
                     res.sample({"family": "random", "text": text})
+        elif shard["kind"] == "files":
+            # the same inputs through the file front end, the source named by an absolute and by a relative path
+            with open("exists_c15.s", "w") as f:
+                f.write(".db 7\n")
+            with open("self_c15.s", "w") as f:
+                f.write(".db 8\n.include 'self_c15.s'\n")
+            rng = random.Random(shard["seed"] ^ 0xF11E)
+            texts = list(FILE_TEXTS)
+            for _ in range(shard["n"]):
+                toks = [rng.choice(ALPHABET + [".include", "'nofile_c15.s'", "'exists_c15.s'", "'sub/x.s'"]) for _ in range(rng.randint(2, 12))]
+                texts.append("".join(t + rng.choice(["", " ", " ", "\n"]) for t in toks))
+            for text in texts:
+                for via in ("file_abs", "file_rel"):
+                    run_text(res, text, "files", via)
+            res.sample({"family": "files", "text": FILE_TEXTS[1]})
         elif shard["kind"] == "recursion":
             rng = random.Random(shard["seed"] ^ 0xC15)
             for i in range(shard["n"]):
@@ -216,7 +306,27 @@ def run_shard(shard: dict) -> Res:
 
 def replay(w: dict) -> Res:
     res = Res()
+    if w.get("native"):
+        v = confirm_stall({"key": {"text": w["text"], "family": w.get("family"), "via": w.get("via", "string")}})
+        res.case(w["text"], True)
+        if isinstance(v, dict):
+            res.violate(v["mechanism"], v["detail"], v["witness"])
+        return res
     install_for_tap()
-    with Scratch({}):
-        run_text(res, w["text"], w.get("family", "replay"))
+    with Scratch({"exists_c15.s": ".db 7\n", "self_c15.s": ".db 8\n.include 'self_c15.s'\n"}):
+        run_text(res, w["text"], w.get("family", "replay"), w.get("via", "string"))
     return res
+
+
+if __name__ == "__main__":
+    if "--one" in sys.argv:
+        import logging
+
+        logging.disable(logging.CRITICAL)
+        k = json.loads(sys.stdin.read())
+        try:
+            with Scratch({"exists_c15.s": ".db 7\n", "self_c15.s": ".db 8\n.include 'self_c15.s'\n"}) as sc:
+                _run_via(k["text"], k.get("via", "string"), sc.dir, None)
+            print("ended: ok")
+        except BaseException as e:  # noqa: BLE001
+            print("ended:", type(e).__name__)
